@@ -157,7 +157,7 @@ static enum h1_status parse_fields(struct cur *c, enum h1_kind kind, struct h1_f
 	}
 }
 
-struct strlist { const char *p[32]; size_t n[32]; int cnt; int overflow; };
+struct strlist { const char *p[32]; size_t n[32]; int cnt; int overflow; int empties; /* empty list elements seen (ignored) */ };
 /* RFC 9110 §5.6.1 list: elements separated by commas, OWS trimmed, empty elements ignored */
 static void list_add(struct strlist *l, const char *v, size_t vl)
 {
@@ -171,7 +171,7 @@ static void list_add(struct strlist *l, const char *v, size_t vl)
 		if (b > a) {
 			if (l->cnt < 32) { l->p[l->cnt] = v + a; l->n[l->cnt] = b - a; l->cnt++; }
 			else l->overflow = 1;
-		}
+		} else l->empties++;
 		i = j + 1;
 	}
 }
@@ -233,7 +233,9 @@ static enum h1_status decide_framing(struct h1_msg *m, const char *req_method, c
 			if (i == 0) v0 = v;
 			else if (v != v0) { *reason = "content-length-conflict"; return H1_MUST_REJECT; }
 		}
-		if (cl.cnt > 1) m->lat |= H1_LAT_CL_IDENTICAL_LIST;
+		/* anything but one field holding one 1*DIGIT value (repeated fields, lists, empty
+		 * elements / an empty field next to a valid one) is the "MAY reject or use the single value" case */
+		if (cl.cnt > 1 || cl_fields > 1 || cl.empties) m->lat |= H1_LAT_CL_IDENTICAL_LIST;
 		m->framing = H1_FR_CL; m->content_length = v0;
 		return H1_OK;
 	}
